@@ -53,6 +53,11 @@ func New(o Opts) (*Chain, error) {
 		o.NetworkID = 1
 	}
 	cfg.ChainId, cfg.NetworkID = o.ChainID, o.NetworkID
+	// lib.DefaultConfig() draws a RANDOM latest-state compaction interval (500-600 versions); when a history crosses it the
+	// store starts a background compaction goroutine that panics ("pebble: closed") if the chain is closed meanwhile - a
+	// shutdown race of the store that has nothing to do with the properties decided on chainsim (compaction itself is
+	// exercised by C10). Switched off here so that a run is a function of its seed; o.Mutate may switch it on again.
+	cfg.StoreConfig.LSSCompactionInterval = 0
 	dir, err := os.MkdirTemp("", "chainsim-")
 	if err != nil {
 		return nil, err
